@@ -942,6 +942,21 @@ def sf_matches_group(ex, node, st):
     return VBool(z3.InRe(t.z, groups[g]))
 
 
+def sf_nmatches(ex, node, st):
+    """nmatches(PATTERN, text): the number of matches the function's own re.finditer(PATTERN, text) produced on this path (the regex
+    contract does not say WHICH substrings match, so the count is that of the iterator the code made; at run time: the real count)."""
+    p = ex.eval(node.args[0], st)
+    t = ex.eval(node.args[1], st)
+    pz = z3.simplify(p.z)
+    if not z3.is_string_value(pz):
+        raise Unsupported("nmatches() needs a constant pattern")
+    pat = z3_to_bytes(pz)
+    found = [it for (pb, dz, it) in getattr(st, "matchiters", []) if pb == pat and z3.eq(z3.simplify(dz), z3.simplify(t.z))]
+    if len(found) != 1:
+        raise AnchorMismatch(f"nmatches({pat[:30]!r}.., ..): the function makes {len(found)} finditer iterators over this pattern and text on this path (exactly one expected)")
+    return VInt(found[0].attrs["n"])
+
+
 def sf_b64decode(ex, node, st):
     a = ex.eval(node.args[0], st)
     return VBytes(uf(ex, "B64DEC", S, S)(a.z))
@@ -994,6 +1009,7 @@ SPEC_FORMS = {
     "hi": sf_hi,
     "alloc": sf_alloc,
     "matches": sf_matches,
+    "nmatches": sf_nmatches,
     "url_scheme": _url_part("scheme"),
     "url_netloc": _url_part("netloc"),
     "url_path": _url_part("path"),
